@@ -263,6 +263,46 @@ theorem readMessage_canonical {α : Type} (c : Codec α) (hc : Lawful c) (maxPay
             subst hn' hcm' ep
             exact ⟨e, wa, by omega⟩
 
+/-! ### v2 transport framing -/
+
+/-- `ReadV2MessageN (WriteV2MessageN m) = m`, for the short-id form and for the 12-byte form alike -/
+theorem readV2_writeV2 {α : Type} (c : Codec α) (hc : Lawful c) (maxPayload : Nat) (cmd : Bytes) (id : Option Nat)
+    (a : α) (hw : c.wf a) (hlen : (c.enc a).length ≤ MaxProtocolMessageLength)
+    (hmax : (c.enc a).length ≤ maxPayload) :
+    readV2 c maxPayload (v2Prefix cmd id) (writeV2 c cmd id a) = .ok a := by
+  unfold readV2 writeV2
+  have h1 : ¬ (c.enc a).length > MaxProtocolMessageLength := by omega
+  have h2 : ¬ (c.enc a).length > maxPayload := by omega
+  simp only [List.take_left, ne_eq, not_true_eq_false, if_false, List.drop_left, h1, h2]
+  exact decodeAll_enc hc a hw
+
+/-- canonicity under a fixed prefix form: what `ReadV2MessageN` accepts is exactly what `WriteV2MessageN`
+writes with that prefix for the decoded value. (That the 12-byte form of a command owning a short id is
+also accepted, and re-written in the short form, is finding F-C08-f.) -/
+theorem readV2_canonical {α : Type} (c : Codec α) (hc : Lawful c) (maxPayload : Nat) (cmd : Bytes) (id : Option Nat)
+    (b : Bytes) (a : α) (h : readV2 c maxPayload (v2Prefix cmd id) b = .ok a) :
+    b = writeV2 c cmd id a ∧ c.wf a ∧ (c.enc a).length ≤ maxPayload := by
+  unfold readV2 at h
+  split at h
+  · cases h
+  · rename_i hp
+    simp only [] at h
+    split at h
+    · cases h
+    · split at h
+      · cases h
+      · rename_i hl
+        obtain ⟨e, w⟩ := enc_of_decodeAll hc _ _ h
+        have hp' : b.take (v2Prefix cmd id).length = v2Prefix cmd id := by simpa using hp
+        refine ⟨?_, w, by rw [← e]; omega⟩
+        unfold writeV2
+        have hh := List.take_append_drop (v2Prefix cmd id).length b
+        rw [hp', e] at hh
+        exact hh.symm
+
+/-- the short-id table is a bijection between its ids and its commands -/
+theorem v2Table_bijective : ∀ p ∈ v2Table, v2IdOf p.2 = some p.1 ∧ v2CmdOf p.1 = some p.2 := by decide
+
 /-! ### hostile bytes: no panic, bounded allocation
 
 `alloc` counts the bytes a decoder requests from the allocator on an input (successful or not), charged
@@ -465,6 +505,8 @@ theorem pin_sizeof : Generated.C08.sizeofTxIn + Generated.C08.sizeofPointer = es
     Generated.C08.sizeofHash + Generated.C08.sizeofPointer = eszHash ∧
     Generated.C08.sizeofNetAddress + Generated.C08.sizeofPointer + 16 ≤ eszNetAddr ∧
     Generated.C08.sizeofNetAddressV2 + Generated.C08.sizeofPointer + 40 ≤ eszNetAddrV2 := by decide
+theorem pin_v2Table : Generated.C08.v2Ids = v2Table.map (fun p => (p.1 : Int)) ∧
+    Generated.C08.v2Commands = v2Table.map (fun p => p.2) := by decide
 theorem pin_commands : Generated.C08.commands = commands := by decide
 theorem pin_maxPayload_current :
     Generated.C08.maxPayloadCurrent = commands.map (fun c => (maxPayload c ProtocolVersion : Int)) := by decide
